@@ -248,6 +248,188 @@ theorem post_non_glyph_names_is_v3_header (inp : PostIn) (out : Bytes)
       · simp [u32At, SubsetGvar.u32At]
   · simp [hrd] at h
 
+
+/-! ## maxp -/
+
+/-- the version 1.0 + NO_HINTING rewrite applies -/
+def maxpDropsHints (flags : Nat) (d : Bytes) : Prop :=
+  u16At d 0 * 65536 + u16At d 2 = 0x00010000 ∧ hasFlag flags F_NO_HINTING = true
+
+instance (flags : Nat) (d : Bytes) : Decidable (maxpDropsHints flags d) := by unfold maxpDropsHints; infer_instance
+
+/-- **maxp_num_glyphs_and_copied_bytes.**  `Maxp::subset`: the output has the source's length, its numGlyphs
+field reads `min(num_output_glyphs, 0xFFFF)`, and EVERY other byte is the source's byte — except, for a version
+1.0 table under NO_HINTING, exactly the fourteen bytes 14..28 of the seven hinting limits, which read maxZones = 1
+and maxTwilightPoints = maxStorage = maxFunctionDefs = maxInstructionDefs = maxStackElements =
+maxSizeOfInstructions = 0.
+Note: maxPoints, maxContours, maxCompositePoints, maxCompositeContours, maxComponentElements and
+maxComponentDepth are COPIED, not recomputed for the kept glyphs (see `maxp_limits_still_bound`). -/
+theorem maxp_num_glyphs_and_copied_bytes (flags nout : Nat) (d out : Bytes) (h : subsetMaxp flags nout d = some out) :
+    out.length = d.length ∧ maxpNumGlyphs out = min nout 0xFFFF ∧
+    (∀ i, i ≠ 4 → i ≠ 5 → (maxpDropsHints flags d → i < 14 ∨ 28 ≤ i) → out[i]? = d[i]?) ∧
+    (maxpDropsHints flags d →
+      u16At out 14 = 1 ∧ u16At out 16 = 0 ∧ u16At out 18 = 0 ∧ u16At out 20 = 0 ∧ u16At out 22 = 0 ∧
+      u16At out 24 = 0 ∧ u16At out 26 = 0) := by
+  unfold subsetMaxp at h
+  simp only at h
+  split at h
+  · cases h
+  rename_i hlen
+  have hmin : min nout 0xFFFF < 65536 := by omega
+  split at h
+  · rename_i hv
+    simp only [Option.some.injEq] at h
+    have hl : 32 ≤ d.length := by
+      by_cases h32 : d.length < 32
+      · exact absurd (Or.inr ⟨hv.1, h32⟩) hlen
+      · omega
+    subst h
+    refine ⟨by simp [setU16_length], ?_, ?_, ?_⟩
+    · unfold maxpNumGlyphs
+      repeat rw [u16At_setU16_ne _ _ _ _ (by omega)]
+      exact u16At_setU16 _ _ _ hmin (by omega)
+    · intro i h4 h5 hr
+      have hr' := hr ⟨hv.1, hv.2⟩
+      repeat rw [setU16_getElem?_ne _ _ _ _ (by omega) (by omega)]
+    · intro _
+      refine ⟨?_, ?_, ?_, ?_, ?_, ?_, ?_⟩
+      · repeat rw [u16At_setU16_ne _ _ _ _ (by omega)]
+        exact u16At_setU16 _ _ _ (by omega) (by simp [setU16_length]; omega)
+      · repeat rw [u16At_setU16_ne _ _ _ _ (by omega)]
+        exact u16At_setU16 _ _ _ (by omega) (by simp [setU16_length]; omega)
+      · repeat rw [u16At_setU16_ne _ _ _ _ (by omega)]
+        exact u16At_setU16 _ _ _ (by omega) (by simp [setU16_length]; omega)
+      · repeat rw [u16At_setU16_ne _ _ _ _ (by omega)]
+        exact u16At_setU16 _ _ _ (by omega) (by simp [setU16_length]; omega)
+      · repeat rw [u16At_setU16_ne _ _ _ _ (by omega)]
+        exact u16At_setU16 _ _ _ (by omega) (by simp [setU16_length]; omega)
+      · repeat rw [u16At_setU16_ne _ _ _ _ (by omega)]
+        exact u16At_setU16 _ _ _ (by omega) (by simp [setU16_length]; omega)
+      · exact u16At_setU16 _ _ _ (by omega) (by simp [setU16_length]; omega)
+  · rename_i hv
+    simp only [Option.some.injEq] at h
+    subst h
+    have hl : 6 ≤ d.length := by
+      by_cases h6 : d.length < 6
+      · exact absurd (Or.inl h6) hlen
+      · omega
+    refine ⟨by simp [setU16_length], ?_, ?_, ?_⟩
+    · exact u16At_setU16 _ _ _ hmin (by omega)
+    · intro i h4 h5 _
+      exact setU16_getElem?_ne _ _ _ _ h4 (by omega)
+    · intro hd; exact absurd ⟨hd.1, hd.2⟩ hv
+
+/-- **maxp_limits_still_bound.**  The six outline limits (maxPoints @6, maxContours @8, maxCompositePoints @10,
+maxCompositeContours @12, maxComponentElements @28, maxComponentDepth @30) of a version 1.0 table are copied
+unchanged, so whatever statistic they bounded over ALL glyphs of the source they still bound over any kept SUBSET
+of those glyphs ("a maximum over a sublist is at most the maximum over the list").  The limits may thus be larger
+than necessary; that the statistic of a kept glyph is the same in the subset as in the source is not part of this
+statement (the harness recomputes it on the real subset: oracle `maxp-limits-still-bound-kept-glyphs`). -/
+theorem maxp_limits_still_bound (flags nout : Nat) (d out : Bytes) (h : subsetMaxp flags nout d = some out)
+    (field : Nat) (hf : field ∈ [6, 8, 10, 12, 28, 30])
+    (stat : Nat → Nat) (all kept : List Nat) (hsub : ∀ g ∈ kept, g ∈ all)
+    (hbound : ∀ g ∈ all, stat g ≤ u16At d field) :
+    u16At out field = u16At d field ∧ ∀ g ∈ kept, stat g ≤ u16At out field := by
+  obtain ⟨_, _, hcopy, _⟩ := maxp_num_glyphs_and_copied_bytes flags nout d out h
+  have hfield : u16At out field = u16At d field := by
+    simp only [List.mem_cons, List.not_mem_nil, or_false] at hf
+    simp only [u16At, List.getD_eq_getElem?_getD]
+    rw [hcopy field (by omega) (by omega) (fun _ => by omega),
+        hcopy (field + 1) (by omega) (by omega) (fun _ => by omega)]
+  exact ⟨hfield, fun g hg => by rw [hfield]; exact hbound g (hsub g hg)⟩
+
+example : subsetMaxp 1 3 ([0, 1, 0, 0, 0, 9] ++ List.replicate 26 5) =
+    some ([0, 1, 0, 0, 0, 3] ++ List.replicate 8 5 ++ [0, 1] ++ List.replicate 12 0 ++ List.replicate 4 5) := by decide
+
+/-! ## head, hhea -/
+
+/-- **head_only_loca_format_changed.**  `subset_head` (head of a glyf font): same length, indexToLocFormat reads
+the format `write_glyf_loca` was run with, every byte other than 50 and 51 is the source's.  (checkSumAdjustment
+at 8..12 is later recomputed for the new file by write-fonts' `FontBuilder::build`, outside klippa.)  A head
+table shorter than 54 bytes is not readable (`font.head()`): `Glyf::subset` fails with it and glyf, loca and
+head are all absent from the subset.  Without a glyf table `Head::subset` copies the table unchanged. -/
+theorem head_only_loca_format_changed (head out : Bytes) (fmt : Nat) (hfmt : fmt < 256)
+    (h : subsetHead head fmt = some out) :
+    out.length = head.length ∧ headLocFormat out = fmt ∧ ∀ i, i ≠ 50 → i ≠ 51 → out[i]? = head[i]? := by
+  unfold subsetHead at h
+  split at h
+  · cases h
+  rename_i hl
+  simp only [Option.some.injEq] at h
+  subst h
+  refine ⟨by simp, ?_, ?_⟩
+  · simp only [headLocFormat, u16At, List.getD_eq_getElem?_getD, List.getElem?_set]
+    simp [show 50 < head.length by omega, show 51 < head.length by omega]
+  · intro i h50 h51
+    simp only [List.getElem?_set]
+    rw [if_neg (fun e => h51 e.symm), if_neg (fun e => h50 e.symm)]
+
+/-- the format the head receives is the one `write_glyf_loca` encoded the loca table with -/
+theorem head_format_is_loca_format (head out : Bytes) (nout : Nat) (news : List Nat) (gs : List Bytes)
+    (h : subsetHead head (writeGlyfLoca nout news gs).fmt = some out) :
+    headLocFormat out = (writeGlyfLoca nout news gs).fmt ∧
+    (headLocFormat out = 0 ↔ (gs.map (fun g => paddedSize g.length)).sum < 0x1FFFF) := by
+  have hlt : (writeGlyfLoca nout news gs).fmt < 256 := by
+    unfold writeGlyfLoca; simp only; split <;> omega
+  obtain ⟨_, hf, _⟩ := head_only_loca_format_changed head out _ hlt h
+  refine ⟨hf, ?_⟩
+  rw [hf]
+  unfold writeGlyfLoca
+  simp only
+  split <;> simp_all
+
+theorem head_no_glyf_unchanged (head out : Bytes) (h : subsetHeadNoGlyf head = some out) : out = head := by
+  unfold subsetHeadNoGlyf at h
+  split at h
+  · cases h
+  · simp only [Option.some.injEq] at h; exact h.symm
+
+/-- **hhea_only_num_h_metrics_changed.**  The hhea tail of `Hmtx::subset`: same length, numberOfHMetrics reads
+`new_num_h_metrics as u16`, every byte other than 34 and 35 is the source's.  The `unwrap()` on
+`get_mut(34..36)` cannot fail: `font.hhea()` only succeeds on at least 36 bytes (and `font.hmtx()`, which comes
+first, needs a readable hhea). -/
+theorem hhea_only_num_h_metrics_changed (hhea out : Bytes) (numH : Nat) (h : subsetHhea hhea numH = some out) :
+    out.length = hhea.length ∧ hheaNumH out = numH % 65536 ∧ ∀ i, i ≠ 34 → i ≠ 35 → out[i]? = hhea[i]? := by
+  unfold subsetHhea at h
+  split at h
+  · cases h
+  rename_i hl
+  simp only [Option.some.injEq] at h
+  subst h
+  exact ⟨setU16_length _ _ _, u16At_setU16 _ _ _ (Nat.mod_lt _ (by omega)) (by omega),
+    fun i h1 h2 => setU16_getElem?_ne _ _ _ _ h1 h2⟩
+
+/-- **hhea_num_h_metrics_is_hmtx_split.**  Link to `C17.hmtx_preserved`: the numberOfHMetrics stored in the
+subset's hhea is the `numH` = number of long metrics `Hmtx::subset` laid the subset's hmtx out with, so a reader
+that splits hmtx by hhea.numberOfHMetrics (read-fonts `TableProvider::hmtx`) reads exactly the `longs` / `lsbs`
+arrays `hmtx_preserved` speaks about, whose byte image has the length that split needs. -/
+theorem hhea_num_h_metrics_is_hmtx_split (longs : List (Nat × Nat)) (lsbs : List Nat) (n2o : List (Nat × Nat))
+    (nout : Nat) (o : HmtxOut) (h : subsetHmtx longs lsbs n2o nout = .ok o) (hn : nout ≤ 0xFFFF)
+    (hhea out : Bytes) (hh : subsetHhea hhea o.numH = some out) :
+    hheaNumH out = o.longs.length ∧ o.longs.length + o.lsbs.length = nout ∧
+    o.bytes.length = 4 * hheaNumH out + 2 * (nout - hheaNumH out) := by
+  obtain ⟨_, hnum, _⟩ := hhea_only_num_h_metrics_changed hhea out o.numH hh
+  unfold subsetHmtx at h
+  split at h
+  · cases h
+  split at h
+  · cases h
+  simp only at h
+  split at h
+  · cases h
+  simp only [Except.ok.injEq] at h
+  have hle : newNumHMetrics longs n2o nout ≤ nout := by
+    unfold newNumHMetrics; simp only
+    exact Nat.le_trans (trimMetrics_le _ _ _) (Nat.min_le_left _ _)
+  subst h
+  simp only [List.length_map, List.length_range] at hnum ⊢
+  have hm : newNumHMetrics longs n2o nout % 65536 = newNumHMetrics longs n2o nout := Nat.mod_eq_of_lt (by omega)
+  rw [hnum, hm]
+  refine ⟨rfl, by omega, ?_⟩
+  unfold HmtxOut.bytes
+  rw [List.length_append, flatMap_const_length _ _ 4 (fun _ => rfl), flatMap_const_length _ _ 2 (fun _ => rfl)]
+  simp only [List.length_map, List.length_range]
+
 /-- non-vacuity: a version 2.0 table with 3 glyphs (`.notdef`; custom "x"; custom "ab" = the third string, the
 second string is empty and unused) subset to glyphs 0 and 2 -/
 def exTable : Bytes :=
